@@ -47,11 +47,15 @@ let kind_counts : (string, int) Hashtbl.t = Hashtbl.create 7
 let bump h k = Hashtbl.replace h k (1 + try Hashtbl.find h k with Not_found -> 0)
 let get h k = try Hashtbl.find h k with Not_found -> 0
 
-let emit kind tag text =
+(* the print limit is per (kind, tag, scenario): the known findings of one scenario cannot crowd out another scenario *)
+let print_counts : (string, int) Hashtbl.t = Hashtbl.create 97
+let emit ?(scope = "") kind tag text =
   bump kind_counts kind;
   let key = kind ^ tag in
   bump tag_counts key;
-  if get tag_counts key <= per_tag_limit then
+  let pkey = key ^ "|" ^ scope in
+  bump print_counts pkey;
+  if get print_counts pkey <= per_tag_limit then
     if kind = "NOTE" then Printf.printf "NOTE %s %s\n" tag text else Printf.printf "MISMATCH %s %s %s\n" kind tag text
 
 (* ---------- small helpers ---------- *)
@@ -232,7 +236,7 @@ let flush_run () =
     r.msgs <- List.filter (fun ((k, tag, _) as m) -> not (is_h m) || not (List.exists (fun (k', tag', _) -> k' = k && tag' = tag) own)) r.msgs;
     List.iter
       (fun (kind, tag, text) ->
-        emit kind tag (Printf.sprintf "scenario=%s cfg=%s run=%s mode=%s %s sched=%s" r.scenario r.cfg r.id r.mode text r.sched))
+        emit ~scope:r.scenario kind tag (Printf.sprintf "scenario=%s cfg=%s run=%s mode=%s %s sched=%s" r.scenario r.cfg r.id r.mode text r.sched))
       (List.rev r.msgs);
     if r.nontrivial then Hashtbl.replace distinct (Digest.to_hex (Digest.string (r.scenario ^ "|" ^ r.cfg ^ "|" ^ Buffer.contents r.tids))) ();
     if r.nsteps > !maxsteps then maxsteps := r.nsteps;
